@@ -191,4 +191,75 @@ example :
     modifyNth, putCell, padTo] at hc ⊢
   rcases hc with rfl | rfl <;> simp
 
+
+/-! ## language bindings -/
+
+/-- unknown user number: `VR_INVALIDARG` and an error-typed VAR -/
+theorem getOpt_unknown (r c : Int) : getOpt none r c = (VR_INVALIDARG, .error VR_INVALIDARG) := rfl
+
+/-- every failing accessor call hands back an error-typed VAR carrying the returned code -/
+theorem getOpt_error_typed (t : Option Table) (r c : Int) (h : (getOpt t r c).1 ≠ VR_OK) :
+    (getOpt t r c).2 = .error (getOpt t r c).1 := by
+  cases t with
+  | none => rfl
+  | some t =>
+    simp only [getOpt, Table.get] at h ⊢
+    split
+    · rfl
+    · split
+      · rfl
+      · rename_i h1 h2
+        simp only [h1, h2, if_false] at h
+        split at h <;> exact absurd rfl h
+
+/-- C / C++ and Fortran accessors differ exactly by the 1-based column -/
+theorem bindings_agree (t : Option Table) (r c : Int) : getOptF t r (c + 1) = getOpt t r c := by
+  simp [getOptF]
+
+/-- Fortran row count = number of data rows (0 without columns) -/
+theorem rowCountF_spec (t : Table) :
+    rowCountF t.rowCountAPI = if t.colCount ≠ 0 then t.rowCount else 0 := by
+  simp only [rowCountF, Table.rowCountAPI]
+  split <;> simp
+
+/-- `Value2`/`ValueF` report type ERROR exactly for an error-typed VAR, a number (long or double) as DOUBLE
+with the value written, and write no number for empty / error / string cells -/
+theorem reported_type (v : Var) :
+    (vtypeReported v = 1 ↔ v.isError = true) ∧
+    (vtypeReported v = 3 ↔ (dvalReported v).isSome = true) := by
+  cases v <;> simp [vtypeReported, dvalReported, Var.isError]
+
+/-- `padfstring`: the buffer holds exactly `cap` bytes — the leading bytes of the value, then blanks — and the
+reported length is the full length of the value (so truncation is detectable) -/
+theorem padF_spec (cap : Nat) (src : List UInt8) :
+    (padF cap src).1.length = cap ∧ (padF cap src).2 = src.length ∧
+    (∀ i, i < cap → i < src.length → (padF cap src).1[i]? = src[i]?) ∧
+    (∀ i, i < cap → src.length ≤ i → (padF cap src).1[i]? = some 32) := by
+  refine ⟨?_, rfl, ?_, ?_⟩
+  · simp [padF]; omega
+  · intro i h1 h2
+    simp only [padF]
+    rw [List.getElem?_append_left (by simp; omega)]
+    simp [h1]
+  · intro i h1 h2
+    simp only [padF]
+    rw [List.getElem?_append_right (by simp; omega)]
+    simp [List.getElem?_replicate]
+    omega
+
+/-- a value that fits is handed over unchanged (blank padded), by both the Fortran and the `Value2` route -/
+theorem fits_unchanged (cap : Nat) (src : List UInt8) (h : src.length ≤ cap) :
+    (padF cap src).1 = src ++ List.replicate (cap - src.length) 32 ∧ strncpyView cap src = src := by
+  simp [padF, strncpyView, List.take_of_length_le h]
+
+/-- non-vacuity: a two-column table through the three bindings, and a 3-byte value in a 2- and a 5-byte buffer -/
+example :
+    let t := Table.init.run [.push "a" (.long 7), .push "b" (.str "xyz"), .endRow]
+    getOpt (some t) 1 0 = (VR_OK, .long 7) ∧ getOptF (some t) 1 1 = (VR_OK, .long 7) ∧
+    getOptF (some t) 1 0 = (VR_INVALIDCOL, .error VR_INVALIDCOL) ∧
+    getOpt (some t) 2 0 = (VR_INVALIDROW, .error VR_INVALIDROW) ∧ rowCountF t.rowCountAPI = 1 ∧
+    vtypeReported (.long 7) = 3 ∧
+    padF 2 [120, 121, 122] = ([120, 121], 3) ∧ padF 5 [120, 121, 122] = ([120, 121, 122, 32, 32], 3) := by
+  decide
+
 end PhreeqcVerif.SelOut
